@@ -1,5 +1,5 @@
 // C11: incremental (tail -f) results equal a batch run over the same prefix.
-use crate::c04::{gen_input, join_lines};
+use crate::c04::{gen_input, gen_typed_input, gen_typed_query, join_lines, C04_DEF};
 use crate::engine_run::*;
 use crate::queries::*;
 use crate::run::{Params, Run};
@@ -111,6 +111,16 @@ pub fn run(p: &Params) -> Run {
         one_case(&mut run, SPLIT_DEF, q, !q.starts_with("SELECT a, b") && !q.starts_with("SELECT input") && !q.starts_with("SELECT DISTINCT") && !q.starts_with("SELECT *"), &lines);
     }
     run.notes.push("targeted streams: HAVING over one aggregate of every kind with thresholds inside the data range and alternating low/high values (the outcome flips as lines arrive); a split table that admits the empty line (the first k lines must count empty lines in batch mode as line-at-a-time does)".to_owned());
+    // fourth stream: typed aggregate statements (every aggregate kind over TEXT / INT / REAL / BOOLEAN / INTERVAL / TIMESTAMP
+    // arguments, arithmetic wrappers, HAVING as boolean combinations with repeated aggregates) over short inputs with
+    // all-NULL columns and NULLs in the first / middle / last row of a group
+    let m4 = p.n(500, 20_000);
+    for _ in 0..m4 {
+        let q = gen_typed_query(&mut rng);
+        let mut lines = gen_typed_input(&mut rng, false);
+        lines.truncate(10);
+        one_case(&mut run, C04_DEF, &q.sql(), true, &lines);
+    }
     run.notes.push("statements without LIMIT (SELECT and aggregate, DISTINCT, HAVING) fed line by line with the default config; every prefix compared with a fresh batch run".to_owned());
     run
 }
